@@ -313,7 +313,8 @@ theorem HInv.of_none {t : Table} {L : Labels} {inp : Bytes} {m : M κ} (h1 : m.i
 def StepPost (t : Table) (L : Labels) (inp : Bytes) (last : Bool) (r : M κ × Option Signal) : Prop :=
   match r.2 with
   | none => HInv t L inp r.1 ∧ r.1.c.isLast = last
-  | some (.endOfInput n) => HeldOk t inp n ∧ (last = false → ∀ data, HInv t L (inp.drop n ++ data) r.1)
+  | some (.endOfInput n) => HeldOk t inp n ∧ (last = false → ∀ data, HInv t L (inp.drop n ++ data) r.1) ∧
+      (r.1.ts = none → r.1.cs = none → inp.length ≤ n) ∧ r.1.isScanner = true
   | _ => True
 
 theorem StepPost.of_sig {t : Table} {L : Labels} {inp : Bytes} {last : Bool} {r : M κ × Option Signal}
@@ -388,14 +389,15 @@ theorem break_spec {t : Table} {L : Labels} {inp : Bytes} (c : Common) (s : Scan
         simp [consumedByteCount, hts, hc]
       rw [breakOnEndOfInput_scanner c s x _ hcons hpos (by omega), hadj]
       simp only [StepPost]
-      refine ⟨⟨[], [], by simp, Or.inl rfl, Or.inl rfl⟩, fun _ data => ?_⟩
+      refine ⟨⟨[], [], by simp, Or.inl rfl, Or.inl rfl⟩, fun _ data => ?_, fun _ _ => Nat.le_refl _, rfl⟩
       exact HInv.of_none rfl (by simpa [M.cs] using hc) (by simpa [M.ts] using hts)
     · have hcons : consumedByteCount inp (⟨c, .scanner s, x⟩ : M κ) = c.pos := by
         simp [consumedByteCount, hts, hc]
       rw [breakOnEndOfInput_scanner c s x _ hcons hpos (by omega), hadj]
       simp only [StepPost]
-      refine ⟨⟨[], inp.drop c.pos, by simp, Or.inl rfl, Or.inr hpre⟩, fun _ data => ?_⟩
-      exact ⟨rfl, fun _ => hsd, fun p hp => by simp [M.ts, hts] at hp⟩
+      refine ⟨⟨[], inp.drop c.pos, by simp, Or.inl rfl, Or.inr hpre⟩, fun _ data => ?_, fun _ h2 => ?_, rfl⟩
+      · exact ⟨rfl, fun _ => hsd, fun p hp => by simp [M.ts, hts] at hp⟩
+      · simp [M.cs, hc] at h2
   | some p =>
     obtain ⟨ph, w, hlab, hshape, hlen, hpre⟩ := hmid p (by simp [M.ts, hts])
     simp only at hlab hlen
@@ -413,7 +415,13 @@ theorem break_spec {t : Table} {L : Labels} {inp : Bytes} (c : Common) (s : Scan
       · exact Or.inr hpre'
     rw [breakOnEndOfInput_scanner c s x _ hcons hpos (by omega)]
     simp only [StepPost]
-    refine ⟨hheld, fun hl data => ?_⟩
+    refine ⟨hheld, fun hl data => ?_, fun h1 _ => ?_, rfl⟩
+    rotate_left
+    · exfalso
+      simp only [M.ts] at h1
+      split at h1
+      · rw [hts] at h1; simp at h1
+      · simp [ScanRegs.adjust, hts] at h1
     have hadj : (if c.isLast then s else s.adjust)
         = { s with tagNameStart := alignNat s.tagNameStart p, tagStart := some 0 } := by
       simp [hl, ScanRegs.adjust, hts]
@@ -1033,7 +1041,9 @@ theorem stateFn_post (htbl : env.tbl = t) (hok : HeadOk t L = true) (m : M κ) (
 theorem runLoop_post (htbl : env.tbl = t) (hok : HeadOk t L = true) (n : Nat) (m : M κ) (h : HInv t L inp m) :
     match (runLoop env inp n m).2 with
     | .endOfInput k => HeldOk t inp k ∧
-        (m.c.isLast = false → ∀ data, HInv t L (inp.drop k ++ data) (runLoop env inp n m).1)
+        (m.c.isLast = false → ∀ data, HInv t L (inp.drop k ++ data) (runLoop env inp n m).1) ∧
+        ((runLoop env inp n m).1.ts = none → (runLoop env inp n m).1.cs = none → inp.length ≤ k) ∧
+        (runLoop env inp n m).1.isScanner = true
     | _ => True := by
   induction n generalizing m with
   | zero => simp [runLoop]
